@@ -142,9 +142,14 @@ def snapshot():
             return
         if hasattr(v, "cache_clear") and callable(getattr(v, "cache_clear", None)):
             clearers.append(v.cache_clear)
-        if (not isinstance(v, _SCALARS + _MUTABLE) and _owned(type(v).__module__ or "")
-                and isinstance(getattr(v, "__dict__", None), dict)):
+        if not isinstance(v, _SCALARS + _MUTABLE) and isinstance(getattr(v, "__dict__", None), dict):
+            # an instance bound at module or class level - of one of the library's classes or of any other (a ChainMap, a
+            # StringIO, a partial ...): its attributes, and the containers they hold one level down
             add_namespace("instance", v, vars(v), label)
+            for av in list(vars(v).values()):
+                if isinstance(av, (list, tuple)):
+                    for e in av:
+                        add_container(e)
 
     for mname, mod in list(sys.modules.items()):
         if mod is None or not _is_lib_module(mname):
